@@ -34,7 +34,7 @@ type C20Case struct {
 }
 
 var allFaults = []string{"no-tty", "listen-syntax", "listen-unresolvable", "listen-port-range", "listen-in-use",
-	"cache-truncated", "cache-corrupt", "cache-is-dir", "cache-parent-is-file", "log-missing-dir", "log-is-dir", "ctrli-missing"}
+	"cache-truncated", "cache-corrupt", "cache-is-dir", "cache-parent-is-file", "cache-dir-unwritable", "log-missing-dir", "log-is-dir", "ctrli-missing"}
 
 var crashRE = regexp.MustCompile(`panic:|goroutine \d+ \[|SIGSEGV|runtime error|fatal error:`)
 
@@ -126,6 +126,15 @@ func runC20(t testing.TB, c C20Case) (key, what string, classes []string) {
 			os.WriteFile(cache, b, 0o600)
 		case "cache-is-dir":
 			os.MkdirAll(cache, 0o700)
+		case "cache-dir-unwritable":
+			// the directory is there (nothing to create) but no file can be
+			// made in it: a read-only directory, or /proc for root, who is not
+			// stopped by permission bits
+			if os.Geteuid() == 0 {
+				cache = "/proc/self/verif-cert.txtar"
+			} else {
+				os.MkdirAll(filepath.Dir(cache), 0o500)
+			}
 		case "cache-parent-is-file":
 			os.WriteFile(filepath.Join(dir, "cache"), []byte("not a directory"), 0o600)
 		case "log-missing-dir":
